@@ -10,17 +10,20 @@ import Sif.Model.Margin
 namespace Sif.Margin
 open Sif
 
+/-- `_ = k.SetMTP(ctx, mtp)` -/
+def storeMtpIgnore (w : W) : W :=
+  match w.storeMtp with
+  | .ok w' => w'
+  | .error (_, w') => w'
+
 /-- `BeginBlockerProcessMTP` after the interest payment: persist the position, then try to
     liquidate.  Pinned code: `ForceCloseLong` runs on the live store and the shared `*pool`, so a
     failure after `TakeOutCustody` leaves the custody taken out while the position stays stored.
     Repaired code (F14b): it runs on a branch of the store and on copies, committed on success. -/
 def processMtpClose (fx : Fixes) (w : W) : W :=
-  let w1 : W := match w.storeMtp with
-    | .ok w' => w'
-    | .error (_, w') => w'
-  match forceCloseLong fx w1 false true with
+  match forceCloseLong fx (storeMtpIgnore w) false true with
   | .ok r => r.2
-  | .error (_, w') => if fx.fcAtomic then w1 else w'
+  | .error (_, w') => if fx.fcAtomic then storeMtpIgnore w else w'
 
 /-- `BeginBlockerProcessMTP`.  Every error is logged and every panic recovered: it always returns. -/
 def processMtp (fx : Fixes) (w : W) : W :=
